@@ -118,6 +118,9 @@ pub struct Obs {
     /// per reader: (inst, seq, len, intact) in presentation order
     pub received: Vec<Vec<(u8, u32, u32, bool)>>,
     pub virt_ms_after_heal: u64,
+    /// (reader, error) for every take() that failed with something else than NoData
+    #[serde(default)]
+    pub take_errors: Vec<(usize, String)>,
 }
 
 async fn scenario(c: CommCase) -> Obs {
@@ -245,13 +248,18 @@ async fn collect(
     obs: &mut Obs,
 ) {
     for (i, r) in readers.iter().enumerate() {
-        if let Ok(samples) = r.take(10_000, ANY_SAMPLE_STATE, ANY_VIEW_STATE, ANY_INSTANCE_STATE).await {
-            for s in samples {
-                if let Some(d) = s.data {
-                    let intact = d.blob == blob_for(d.seq, d.blob.len());
-                    obs.received[i].push((d.id, d.seq, d.blob.len() as u32, intact));
+        match r.take(10_000, ANY_SAMPLE_STATE, ANY_VIEW_STATE, ANY_INSTANCE_STATE).await {
+            Ok(samples) => {
+                for s in samples {
+                    if let Some(d) = s.data {
+                        let intact = d.blob == blob_for(d.seq, d.blob.len());
+                        obs.received[i].push((d.id, d.seq, d.blob.len() as u32, intact));
+                    }
                 }
             }
+            Err(dust_dds::infrastructure::error::DdsError::NoData) => {}
+            // the reader holds something it cannot present as a sample of the type (undecodable payload)
+            Err(e) => obs.take_errors.push((i, format!("{e:?}"))),
         }
     }
 }
@@ -405,6 +413,12 @@ fn oracle(c: &CommCase, obs: &Obs, res: &mut CaseResult) {
                 );
             }
         }
+    }
+    if let Some((ri, e)) = obs.take_errors.first() {
+        res.fail(
+            format!("{prop}:corrupt:take-error"),
+            format!("reader {ri}: take() failed with {e} ({} times): a received payload could not be presented as a sample of the written type", obs.take_errors.len()),
+        );
     }
     res.info = json!({
         "written": obs.written.len(),
